@@ -157,10 +157,10 @@ fn observe(c: &Case) -> Obs {
         }
         "type" => {
             let t = mk_parser(c).parse_type();
-            // SyntaxTree::<Type>::ty() (its unreachable!) is part of the entry
-            let ty = t.ty();
+            // SyntaxTree::<Type>::ty() is part of the entry (it must not panic either)
+            let _ty = t.ty();
             (
-                ty.syntax().clone(),
+                SyntaxNode::new_root(t.green()),
                 t.errors().map(|e| (e.is_limit(), e.index())).collect(),
                 t.recursion_limit().high,
                 t.token_limit().high,
@@ -187,7 +187,19 @@ fn observe(c: &Case) -> Obs {
     obs
 }
 
-const STACK: usize = 256 * 1024;
+/// stack of the worker thread each case runs on (KiB; default below, override for experiments)
+fn stack_bytes() -> usize {
+    std::env::var("VERIF_PARSE_STACK_KIB")
+        .ok()
+        .and_then(|v| v.parse::<usize>().ok())
+        .unwrap_or(DEFAULT_STACK_KIB)
+        * 1024
+}
+/// Measured (release build): the parser needs 0.7-0.9 KiB of stack per nesting level, so the default
+/// recursion limit of 500 needs about 450 KiB; 256 KiB overflows from depth ~250 on.  The parser runs on
+/// 1 MiB (half of Rust's default thread stack), the compiler entry points on 2 MiB (that default).
+const DEFAULT_STACK_KIB: usize = 1024;
+const COMPILER_STACK_KIB: usize = 2048;
 const WATCHDOG: Duration = Duration::from_secs(20);
 
 enum Ran<T> {
@@ -198,9 +210,13 @@ enum Ran<T> {
 
 /// Run `f` on a thread with a small stack, under a watchdog; a panic is caught by the join.
 fn guarded<T: Send + 'static>(f: impl FnOnce() -> T + Send + 'static) -> Ran<T> {
+    guarded_on(stack_bytes(), f)
+}
+
+fn guarded_on<T: Send + 'static>(stack: usize, f: impl FnOnce() -> T + Send + 'static) -> Ran<T> {
     let (tx, rx) = mpsc::channel();
     let h = std::thread::Builder::new()
-        .stack_size(STACK)
+        .stack_size(stack)
         .spawn(move || {
             let r = std::panic::catch_unwind(std::panic::AssertUnwindSafe(f));
             let _ = tx.send(r.is_ok());
@@ -246,13 +262,21 @@ fn errs_indexed(o: &Obs) -> String {
 
 const TINY_SCHEMA: &str = "type Query { a: Query b: Int c(x: Int): [Query] }";
 
+fn tiny_schema() -> &'static apollo_compiler::validation::Valid<apollo_compiler::Schema> {
+    static S: std::sync::OnceLock<apollo_compiler::validation::Valid<apollo_compiler::Schema>> =
+        std::sync::OnceLock::new();
+    S.get_or_init(|| {
+        apollo_compiler::Schema::parse_and_validate(TINY_SCHEMA, "schema.graphql").expect("tiny schema")
+    })
+}
+
 /// C01 through the compiler's entry points: each must return (Ok or Err), not unwind, not hang.
 fn compiler_entries(c: &Case) -> Result<(), String> {
     use apollo_compiler::{ast, executable, ExecutableDocument, Schema};
     let src = c.src.clone();
     let (tl, rl) = (c.tl, c.rl);
     let entry = c.entry.clone();
-    let r = guarded(move || {
+    let r = guarded_on(COMPILER_STACK_KIB * 1024, move || {
         let conf = || {
             let mut p = apollo_compiler::parser::Parser::new().recursion_limit(rl);
             if let Some(tl) = tl {
@@ -260,20 +284,20 @@ fn compiler_entries(c: &Case) -> Result<(), String> {
             }
             p
         };
-        let schema = Schema::parse_and_validate(TINY_SCHEMA, "schema.graphql").expect("tiny schema");
+        let schema = tiny_schema();
         match entry.as_str() {
             "doc" => {
                 let _ = ast::Document::parse(src.clone(), "d.graphql");
                 let _ = Schema::parse(src.clone(), "s.graphql");
-                let _ = ExecutableDocument::parse(&schema, src.clone(), "e.graphql");
+                let _ = ExecutableDocument::parse(schema, src.clone(), "e.graphql");
                 let _ = conf().parse_ast(src.clone(), "d.graphql");
                 let _ = conf().parse_schema(src.clone(), "s.graphql");
-                let _ = conf().parse_executable(&schema, src.clone(), "e.graphql");
+                let _ = conf().parse_executable(schema, src.clone(), "e.graphql");
             }
             "selset" => {
                 let q = apollo_compiler::name!("Query");
-                let _ = executable::FieldSet::parse(&schema, q.clone(), src.clone(), "f.graphql");
-                let _ = conf().parse_field_set(&schema, q, src.clone(), "f.graphql");
+                let _ = executable::FieldSet::parse(schema, q.clone(), src.clone(), "f.graphql");
+                let _ = conf().parse_field_set(schema, q, src.clone(), "f.graphql");
             }
             _ => {
                 let _ = ast::Type::parse(src.clone(), "t.graphql");
@@ -466,7 +490,7 @@ fn c04_parse(line: &str) -> String {
     // ---- the compiler's reached figures
     {
         let (src, tl, rl, entry) = (c.src.clone(), c.tl, c.rl, c.entry.clone());
-        let r = guarded(move || {
+        let r = guarded_on(COMPILER_STACK_KIB * 1024, move || {
             let mut p = apollo_compiler::parser::Parser::new().recursion_limit(rl);
             if let Some(tl) = tl {
                 p = p.token_limit(tl);
@@ -476,9 +500,7 @@ fn c04_parse(line: &str) -> String {
                     let _ = p.parse_ast(src, "d.graphql");
                 }
                 "selset" => {
-                    let schema = apollo_compiler::Schema::parse_and_validate(TINY_SCHEMA, "s.graphql")
-                        .expect("tiny schema");
-                    let _ = p.parse_field_set(&schema, apollo_compiler::name!("Query"), src, "f.graphql");
+                    let _ = p.parse_field_set(tiny_schema(), apollo_compiler::name!("Query"), src, "f.graphql");
                 }
                 _ => {
                     let _ = p.parse_type(src, "t.graphql");
@@ -517,7 +539,7 @@ fn observe_with_depth(c: &Case) -> (Obs, usize) {
     let root: SyntaxNode = match c.entry.as_str() {
         "doc" => mk_parser(c).parse().document().syntax().clone(),
         "selset" => mk_parser(c).parse_selection_set().field_set().syntax().clone(),
-        _ => mk_parser(c).parse_type().ty().syntax().clone(),
+        _ => SyntaxNode::new_root(mk_parser(c).parse_type().green()),
     };
     let d = nest_depth(&root, 0);
     (o, d)
@@ -560,7 +582,9 @@ fn c07_parse(line: &str) -> String {
         "type" => {
             // re-print the returned type and compare token-wise with the input's significant tokens
             let src = c.src.clone();
-            let r = guarded(move || apollo_compiler::ast::Type::parse(src, "t.graphql").map(|t| t.to_string()));
+            let r = guarded_on(COMPILER_STACK_KIB * 1024, move || {
+                apollo_compiler::ast::Type::parse(src, "t.graphql").map(|t| t.to_string())
+            });
             match r {
                 Ran::Done(Ok(printed)) => {
                     if significant(&printed) != input_sig {
